@@ -417,6 +417,11 @@ def run_case(idx, rng, tier, lane):
             base = results[labels[0]]
             counters["inputs_compared"] = counters.get("inputs_compared", 0) + 1
             for lb in labels[1:]:
+                if lb == "vg" and kind == "genotype":
+                    # valgrind computes x87 long double arithmetic in 64 bits: the genotype likelihoods differ in the 6th digit under
+                    # it by construction; for this subcommand only the memcheck reports of the run are judged
+                    counters["vg_output_comparisons_skipped_long_double"] = counters.get("vg_output_comparisons_skipped_long_double", 0) + 1
+                    continue
                 for name, content in base.items():
                     counters["outputs_compared"] = counters.get("outputs_compared", 0) + 1
                     other = results[lb].get(name)
